@@ -1,0 +1,31 @@
+//go:build verif
+// +build verif
+
+package middleware
+
+import (
+	"com.tuntun.rangers/node/src/middleware/db"
+	"com.tuntun.rangers/node/src/storage/account"
+)
+
+// Verification hook for property C05 (build tag verif, add-only).
+
+// VerifC05RestartStateDB simulates what a process restart does to the account
+// database manager: every in-memory layer above the LevelDB store (trie node
+// cache with uncommitted dirty nodes, code caches, latest state objects) is
+// thrown away and rebuilt over the same store. The store is registered with
+// the write gate under the name "state".
+func VerifC05RestartStateDB() {
+	m := &AccountDBManagerInstance
+	db.VerifC05Name(m.db, "state")
+	m.stateDB = account.NewDatabase(m.db)
+	m.latestStateDB = nil
+	m.LatestStateDB = nil
+	m.Height = 0
+}
+
+// VerifC05BuilderStateDB is an account database over an in-memory overlay of
+// the node's state store (reads fall through, writes stay in memory).
+func VerifC05BuilderStateDB() account.AccountDatabase {
+	return account.NewDatabase(db.VerifC05Overlay(AccountDBManagerInstance.db))
+}
